@@ -354,18 +354,7 @@ def law_pipeline(run, law, modes, nwords, classify=None):
 
 
 def classify_c06(m):
-    import re
-    parts = _rule_parts(m.get("rule", ""))
-    if not parts:
-        return None
-    if parts["inp"] in ("*", "\u2205"):
-        for env in parts["ctx"].replace(":{", "").replace("}:", "").split(","):
-            if "_" in env:
-                b, a = env.split("_", 1)
-                if b.strip().rstrip("_ ").endswith("$") or a.strip().lstrip("_ ").startswith("$"):
-                    return "C06-KF1"
-    if re.search(r"\{[^}]*%[^}]*\}", parts["inp"]) and len(parts["inp"].split()) > 1:
-        return "C06-KF2"
+    """both former C06 findings (KF1: `$` next to the underline of an insertion, KF2: `%` inside an input set) were repaired (a94fa3c and the word-end fallback fix): nothing is classified any more"""
     return None
 
 
